@@ -244,6 +244,30 @@ def check_navigation(root, text, rng, all_positions=True, max_positions=400):
             if x.get_root_node() is not root:
                 out.append(('root_node', 'get_root_node of %s is not the root' % x.type))
                 return out, info
+            # a node's next/previous leaf are the neighbours of its last/first leaf in leaf order (None at the ends, and for the root)
+            try:
+                nx, pv = x.get_next_leaf(), x.get_previous_leaf()
+            except Exception as e:
+                out.append(('nav_raise', 'get_next/previous_leaf raised %r on node %s' % (e, x.type)))
+                return out, info
+            wn = L[idx[id(la)] + 1] if idx[id(la)] + 1 < len(L) else None
+            wp = L[idx[id(f)] - 1] if idx[id(f)] > 0 else None
+            if nx is not wn or pv is not wp:
+                out.append(('node_next_previous_leaf', '%s at %s: get_next_leaf %r (expected %r), get_previous_leaf %r (expected %r)' % (
+                    x.type, x.start_pos, nx, wn, pv, wp)))
+                return out, info
+            info['node_leaf_navigations'] = info.get('node_leaf_navigations', 0) + 1
+            if x.get_start_pos_of_prefix() != f.get_start_pos_of_prefix():
+                out.append(('node_prefix_start', '%s: get_start_pos_of_prefix differs from its first leaf' % x.type))
+                return out, info
+    try:
+        r4 = (root.get_next_sibling(), root.get_previous_sibling(), root.get_next_leaf(), root.get_previous_leaf())
+    except Exception as e:
+        out.append(('nav_raise', 'navigation from the root raised %r' % (e,)))
+        return out, info
+    if any(r is not None for r in r4):
+        out.append(('root_navigation', 'the root has a sibling or a neighbouring leaf: %r' % (r4,)))
+        return out, info
     # search_ancestor = nearest ancestor of that type
     sample = L if len(L) <= 60 else rng.sample(L, 60)
     for l in sample:
